@@ -292,6 +292,8 @@ def c04_rf18(run):
     rf_inline.rf72(run)
     rf_inline.rf73(run)
     rf_inline.rf83(run)
+    rf_inline.rf90(run)
+    rf_inline.rf91(run)
     rf_flow.rf71(run, units=('mir',))
     run.min_instances('RF71', 3)
     rf_fold.rf48(run)
@@ -335,6 +337,7 @@ def c14_rf16f(run):
     rf_flow.rf53(run)
     rf_proto.rf76(run)
     rf_proto.rf79(run)
+    rf_iface.rf89(run)
 
 
 def c02_rf7a(run):
@@ -369,6 +372,7 @@ def c03_rf11(run):
     rf_x86.rf64(run)
     run.min_instances('RF64', 10)
     rf_x86.rf77(run)
+    rf_iface.rf89(run)
 
 
 def c06_rf11(run):
